@@ -220,7 +220,7 @@ fn simple_filter(p: &Params) -> (Filter, Want) {
     (Filter::tag(tag, "x y"), Want::Tok(format!("({name} == \"x y\")")))
 }
 
-pub const ROWS: usize = 92;
+pub const ROWS: usize = 96;
 
 /// Row `row` with parameters `p`: the command the crate builds and what the protocol reference
 /// says the request must be. `None`: the row's documented precondition does not hold for `p`.
@@ -461,6 +461,32 @@ pub fn eval(row: usize, p: &Params) -> Option<(&'static str, Command, Vec<Want>)
             _ => ("ListChannels", c::ListChannels.command(), vec![t("channels")]),
         },
         91 => ("SendChannelMessage", c::SendChannelMessage::new(s1, s2).command(), vec![t("sendmessage"), t(s1), t(s2)]),
+        // builder methods documented as "will overwrite ... if called multiple times"
+        92 => {
+            let (tag, tw) = tag_at(p.tags.get(2).copied().unwrap_or(3));
+            let other = Filter::tag(Tag::Genre, "first");
+            let (f, fw) = simple_filter(p);
+            ("List::filter twice", c::List::new(tag).filter(other).filter(f).command(), vec![t("list"), tw, fw])
+        }
+        93 => {
+            let (tag, tw) = tag_at(p.tags.get(2).copied().unwrap_or(3));
+            let (g0, _) = tag_at(p.tags.get(1).copied().unwrap_or(5000));
+            let (g1, g1w) = tag_at(p.tags.get(3).copied().unwrap_or(9000));
+            ("List::group_by twice", c::List::new(tag).group_by([g0.clone(), g0]).group_by([g1]).command(), vec![t("list"), tw, t("group"), g1w])
+        }
+        94 => {
+            let other = Filter::tag(Tag::Genre, "first");
+            let (f, fw) = simple_filter(p);
+            let (g, gw) = tag_at(p.tags.get(1).copied().unwrap_or(7));
+            ("CountGrouped::filter twice", c::CountGrouped::new(g).filter(other).filter(f).command(), vec![t("count"), fw, t("group"), gw])
+        }
+        95 => {
+            let other = Filter::tag(Tag::Genre, "first");
+            let (tag, tw) = tag_at(p.tags.get(2).copied().unwrap_or(3));
+            let (g1, g1w) = tag_at(p.tags.get(3).copied().unwrap_or(9000));
+            let (f, fw) = simple_filter(p);
+            ("List::filter, group_by, filter", c::List::new(tag).filter(other).group_by([g1]).filter(f).command(), vec![t("list"), tw, fw, t("group"), g1w])
+        }
         _ => return None,
     })
 }
@@ -624,7 +650,7 @@ pub fn property(_tier: Tier) -> Property {
         parts: vec![
             Box::new(ExhaustivePart {
                 name: "grid",
-                rule: "92 rows (one per constructor/builder path of every predefined command) x a,b in {0,1,2,99,100,MAX-1,MAX} x start/end bound kind in {included, excluded, unbounded} x 4 flag values selecting enum variants / strings (empty, blank, plain, multi-byte+tab) / duration magnitudes with sub-millisecond nanos; non-trivial = any boundary number, non-default bound kind, sub-ms duration, or empty/blank/non-ASCII string",
+                rule: "96 rows (one per constructor/builder path of every predefined command, incl. the builder methods documented to overwrite on a second call) x a,b in {0,1,2,99,100,MAX-1,MAX} x start/end bound kind in {included, excluded, unbounded} x 4 flag values selecting enum variants / strings (empty, blank, plain, multi-byte+tab) / duration magnitudes with sub-millisecond nanos; non-trivial = any boundary number, non-default bound kind, sub-ms duration, or empty/blank/non-ASCII string",
                 space: Box::new(grid),
                 check: Box::new(check),
             }),
